@@ -71,7 +71,7 @@ MUTANTS = [
             if name in compiler.symbols:
                 return compiler.symbols[name]
 """, """        for name in candidates:
-            while name in compiler.symbols and self.name.lower() == "zed" and state.get("context") == "repeat":
+            while name in compiler.symbols and state.get("context") == "repeat":
                 pass
             if name in compiler.symbols:
                 return compiler.symbols[name]
